@@ -38,8 +38,11 @@ class Rec(object):
         return getattr(importlib.import_module(mod), name)
 
 
-def recv(cls, shape, owner, module="basic", route="unsolicited", request=None, notes="", name=None):
-    r = Rec("recv", cls, shape=shape, owner=owner, module=module, route=route, request=request, notes=notes, name=name)
+def recv(cls, shape, owner, module="basic", route="unsolicited", request=None, notes="", name=None, numeric_tags=()):
+    """numeric_tags: tags of child nodes whose binary content is a big-endian integer; the statement compares numbers by
+    value, so a different zero-padding of such content is not a loss"""
+    r = Rec("recv", cls, shape=shape, owner=owner, module=module, route=route, request=request, notes=notes, name=name,
+            numeric_tags=tuple(numeric_tags))
     RECV.append(r)
     return r
 
